@@ -58,7 +58,7 @@ func scoreInf(s string) int {
 // want is the model's reply (nil when no model runs), st the model state
 // after the command, preLen the length the addressed list had before the
 // command as the harness read it (-1: not known, e.g. inside a batch).
-func knownShape(args []string, want interface{}, st *model.Store, preLen int) string {
+func knownShape(args []string, want interface{}, st *model.Store, preLen int, engine string) string {
 	name := args[0]
 	a := args[1:]
 	if model.MultiKey(name) {
@@ -225,9 +225,38 @@ func knownShape(args []string, want interface{}, st *model.Store, preLen int) st
 			if _, bad := want.(model.Err); !bad && (a[1] == "+" || a[2] == "-") {
 				return "lex-range-with-plus-as-min-or-minus-as-max-is-an-error"
 			}
+			// mem (radix) engine only: seeking to an existing key that starts
+			// with 0x00 right after another existing key that is its proper
+			// prefix (here: the empty member) lands behind it
+			if engine == "mem" && strings.HasPrefix(a[1], "[\x00") && st != nil {
+				if z := st.ZSet[a[0]]; z != nil {
+					_, hasEmpty := z[""]
+					_, hasMin := z[a[1][1:]]
+					if name == "zremrangebylex" {
+						// the model has already removed them
+						hasEmpty, hasMin = true, true
+					}
+					if hasEmpty && hasMin {
+						return "memradix-nul-extended-key-seek"
+					}
+				}
+			}
 		}
 	}
 	return ""
 }
 
 func known13(sp scanSpec, rule string) string { return "" }
+
+// damaging: deviations after which the stored representation of the key is
+// inconsistent (size counter, index entries), so that nothing read from the
+// key later can be judged.
+func damaging(key string) bool {
+	switch key {
+	case "sadd-duplicate-member-counted-twice", "srem-duplicate-member-counted-twice", "zrem-duplicate-member-counted-twice",
+		"zadd-duplicate-member-in-one-command", "hmset-duplicate-field-counted-twice", "hdel-duplicate-field-counted-twice",
+		"nan-score-accepted", "zincrby-zero-drops-member-from-score-index", "ltrim-range-before-head-errors-and-corrupts-the-list":
+		return true
+	}
+	return false
+}
